@@ -268,9 +268,8 @@ def rope_signature(new):
 
 def atoms_of(o):
     """Keys of a failing outcome: the clause, how it fails and - from the spec's
-    shape facts of the region - which variables rope's answer leaves out.
-    Function scope: one key naming all left-out variables by role and shape.
-    Module scope: one key per left-out variable."""
+    shape facts of the region - one key per variable that rope's answer leaves
+    out (its role and shape).  A failure is known only if all its keys are."""
     q = o["q"]
     base = {"clause": q["what"], "cls": q["cls"], "res": o["res"],
             "scope": "module" if q["variant"] == "module" else "function"}
@@ -296,27 +295,31 @@ def atoms_of(o):
         need_p = [v for v in need_p if v in q["written"]]
     miss_p = [shapes[v] for v in need_p if v not in sig[0]]
     miss_r = [shapes[v] for v in q["results"] if v not in sig[1]]
-    if base["scope"] == "module":
-        out = []
-        for sh in miss_p:
+    miss_r_names = set(sh["v"] for sh in miss_r)
+    out = []
+    for sh in miss_p:
+        k = dict(base)
+        if base["scope"] == "module":
+            k.update(role="param", livein=sh["li"], after=sh["fa"], surely_written=sh["dw"])
+        else:
+            k.update(role="param", first=sh["fi"], first_at=sh["fin"], firstread_at=sh["frn"], livein=sh["li"],
+                     write_after_inner_block=sh["wai"], result_also_missing=sh["v"] in miss_r_names)
+        out.append(k)
+    for sh in miss_r:
+        k = dict(base)
+        k.update(role="result", after=sh["fa"], loopread=sh["lr"], forward=sh["nb"])
+        out.append(k)
+    for v in sig[0]:
+        # a superset of the parameters is fine unless the extra one is not bound at the call
+        if v in shapes and v not in q["params"] and not shapes[v]["da"]:
             k = dict(base)
-            k.update(role="param", livein=sh["li"], after=sh["fa"])
+            k.update(role="extra-param-unbound-at-call", first=shapes[v]["fi"], first_at=shapes[v]["fin"])
             out.append(k)
-        for sh in miss_r:
-            k = dict(base)
-            k.update(role="result", after=sh["fa"], loopread=sh["lr"], forward=sh["nb"])
-            out.append(k)
-        uniq = []
-        for k in out:
-            if k not in uniq:
-                uniq.append(k)
-        return uniq or [base]
-    k = dict(base)
-    k["missing_params"] = sorted(set("first=%s@%s firstread@%s livein=%s" % (
-        sh["fi"], sh["fin"], sh["frn"], "yes" if sh["li"] else "no") for sh in miss_p))
-    k["missing_results"] = sorted(set("after=%s loopread=%s forward=%s" % (
-        sh["fa"], sh["lr"], "yes" if sh["nb"] else "no") for sh in miss_r))
-    return [k]
+    uniq = []
+    for k in out:
+        if k not in uniq:
+            uniq.append(k)
+    return uniq or [base]
 
 
 def offsets(rd, q):
